@@ -409,14 +409,20 @@ Section Example7State.
   Qed.
 
   (* round trip on that model: 10 miles written to a feature kept in kilometres reads back as
-     10 * 1.60934 * 0.6215040398 miles *)
+     10 * 1.60934 * 0.6215040398 miles; the other slots are untouched *)
+  Definition ex_sm : smodel QN :=
+    Eval vm_compute in match build_search_instance (new ex_cfg) ex_tm ex_am (USome ex_user) with Ok sm => sm | _ => empty end.
+  Definition ex_st : list Q := Eval vm_compute in match initial_state QN ex_sm with Ok st => st | _ => [] end.
+  Definition ex_st' : list Q :=
+    Eval vm_compute in match set_distance QN ex_sm ex_st "distance" 10 Miles with Ok st => st | _ => [] end.
   Example ex7_roundtrip :
-    exists sm st st', build_search_instance (new ex_cfg) ex_tm ex_am (USome ex_user) = Ok sm
-      /\ initial_state QN sm = Ok st
-      /\ set_distance QN sm st "distance" 10 Miles = Ok st'
-      /\ get_distance QN sm st' "distance" Miles = Ok (convert_distance QN Kilometers Miles (convert_distance QN Miles Kilometers 10))
-      /\ nth_error st' 4 = Some 55.
-  Proof. eexists. eexists. eexists. repeat split; vm_compute; reflexivity. Qed.
+    build_search_instance (new ex_cfg) ex_tm ex_am (USome ex_user) = Ok ex_sm
+    /\ initial_state QN ex_sm = Ok ex_st
+    /\ set_distance QN ex_sm ex_st "distance" 10 Miles = Ok ex_st'
+    /\ get_distance QN ex_sm ex_st' "distance" Miles
+       = Ok (convert_distance QN Kilometers Miles (convert_distance QN Miles Kilometers 10))
+    /\ nth_error ex_st' 4 = Some 55 /\ List.length ex_st' = 7%nat.
+  Proof. repeat split; vm_compute; reflexivity. Qed.
 
   (* refusals are reachable too *)
   Example ex7_refused :
